@@ -254,6 +254,17 @@ class Expander:
                     i += 1
                 self.do_fn(d[3:].split(), group)
                 continue
+            elif d.startswith("when "):
+                # //@when alloc|!alloc ... //@endwhen : the enclosed directives exist only in configurations with /
+                # without that feature (the items they name carry the matching #[cfg] in /repo)
+                w = d.split()[1]
+                have = w.lstrip("!") in self.feats
+                if have == w.startswith("!"):
+                    self.log.append("block skipped in this configuration (when %s)" % w)
+                    while i < len(lines) and not lines[i].strip().startswith("//@endwhen"):
+                        i += 1
+            elif d.startswith("endwhen"):
+                pass
             elif d.startswith("#"):
                 pass  # comment directive
             else:
